@@ -3,9 +3,12 @@ from plans import step
 PLAN = dict(
         coq_targets=["Props/C18.vo"],
         steps=[
-            dict(name="robust", harness="robust", model="relay", n=dict(quick=3000, thorough=60000),
-                 shards=dict(quick=1, thorough=6), args=[], viol=None),
-            dict(name="robust-thorough-depths", harness="robust", model="relay", n=dict(quick=0, thorough=10),
+            # n = 0 switches a step off in that tier (the fixed streams would otherwise be repeated by every shard)
+            dict(name="robust", harness="robust", model="relay", n=dict(quick=3000, thorough=0),
+                 shards=dict(quick=1, thorough=1), args=[], viol=None),
+            dict(name="robust-random", harness="robust", model="relay", n=dict(quick=0, thorough=72000),
+                 shards=dict(quick=1, thorough=6), args=["nodeep"], viol=None),
+            dict(name="robust-depths", harness="robust", model="relay", n=dict(quick=0, thorough=10),
                  shards=dict(quick=1, thorough=1), args=["thorough", "only=deep"], viol=None),
             step("literal-conversion", "robust-lit", "robust-lit", 400, 20000, shards_thorough=1),
         ],
